@@ -103,7 +103,7 @@ func subterms2(text, fn string) [][2]string {
 
 // lemmaInstances generates ground instances of the pow10/nd10 lemma library
 // (DESIGN section 4) for the terms that occur in the query text.
-func lemmaInstances(text string) []string {
+func lemmaInstances(text string, level int) []string {
 	var out []string
 	add := func(f string, a ...interface{}) { out = append(out, fmt.Sprintf(f, a...)) }
 	// Euclidean division by a symbolic divisor: defining property per occurrence
@@ -158,28 +158,37 @@ func lemmaInstances(text string) []string {
 	}
 	for _, t := range p10 {
 		add("(=> (>= %s 0) (>= (pow10 %s) 1))", t, t)
+		if !isAllDigits(t) {
+			add("(=> (= %s 0) (= (pow10 %s) 1))", t, t)
+			add("(=> (= %s 1) (= (pow10 %s) 10))", t, t)
+		}
+	}
+	related := func(a, b string) bool { return true }
+	if level == 1 {
+		rel := cooccur(text, p10, nds)
+		related = func(a, b string) bool { return rel[a+"\x00"+b] || rel[b+"\x00"+a] }
 	}
 	for i, a := range p10 {
 		for j, b := range p10 {
-			if i == j {
+			if i == j || !related(a, b) {
 				continue
 			}
 			add("(=> (and (<= 0 %s) (< %s %s)) (<= (* 10 (pow10 %s)) (pow10 %s)))", a, a, b, a, b)
-			if i < j {
-				add("(=> (= %s %s) (= (pow10 %s) (pow10 %s)))", a, b, a, b)
-			}
 			add("(=> (and (<= 0 %s) (= %s (+ %s 1))) (= (pow10 %s) (* 10 (pow10 %s))))", a, b, a, b, a)
 		}
 	}
 	for _, v := range nds {
 		for _, t := range p10 {
+			if !related("nd:"+v, t) {
+				continue
+			}
 			add("(=> (and (>= %s 0) (>= %s (pow10 %s))) (>= (nd10 %s) (+ %s 1)))", t, v, t, v, t)
 			add("(=> (and (>= %s 1) (>= %s 0) (< %s (pow10 %s))) (<= (nd10 %s) %s))", t, v, v, t, v, t)
 		}
 	}
 	for i, v := range nds {
 		for j, w := range nds {
-			if i != j {
+			if i != j && related("nd:"+v, "nd:"+w) {
 				add("(=> (and (<= 0 %s) (<= %s %s)) (<= (nd10 %s) (nd10 %s)))", v, v, w, v, w)
 			}
 		}
@@ -225,6 +234,81 @@ func lemmaInstances(text string) []string {
 	return out
 }
 
+// cooccur relates pow10/nd10 terms that occur in the same assertion (or are the
+// n-1 / n / n+1 companions of one nd10 term): level-1 instantiation generates
+// pair lemmas only for related terms; level 2 generates all pairs.
+func cooccur(text string, p10, nds []string) map[string]bool {
+	rel := map[string]bool{}
+	link := func(ys []string) {
+		seen := map[string]bool{}
+		var xs []string
+		for _, y := range ys {
+			if !seen[y] {
+				seen[y] = true
+				xs = append(xs, y)
+			}
+		}
+		if len(xs) > 16 {
+			return
+		}
+		for _, a := range xs {
+			for _, b := range xs {
+				if a != b {
+					rel[a+"\x00"+b] = true
+				}
+			}
+		}
+	}
+	// constants defined as (= NAME (pow10 X)) or (= NAME (nd10 X)) stand for that term wherever they occur
+	lines := strings.Split(text, "\n")
+	alias := map[string][]string{}
+	for _, line := range lines {
+		if !strings.HasPrefix(line, "(assert (= ") {
+			continue
+		}
+		rest := line[len("(assert (= "):]
+		sp := strings.IndexByte(rest, ' ')
+		if sp < 0 || strings.HasPrefix(rest, "(") {
+			continue
+		}
+		name := rest[:sp]
+		def := rest[sp+1:]
+		if strings.HasPrefix(def, "(pow10 ") {
+			if ts := subterms(def[:len(def)], "pow10"); len(ts) > 0 {
+				alias[name] = append(alias[name], ts[0])
+			}
+		}
+	}
+	for _, line := range lines {
+		var xs []string
+		for _, t := range subterms(line, "pow10") {
+			xs = append(xs, t)
+		}
+		if len(alias) > 0 {
+			for _, tok := range strings.FieldsFunc(line, func(r rune) bool { return r == ' ' || r == '(' || r == ')' }) {
+				if as, ok := alias[tok]; ok {
+					xs = append(xs, as...)
+				}
+			}
+		}
+		for _, v := range subterms(line, "nd10") {
+			xs = append(xs, "nd:"+v, fmt.Sprintf("(- (nd10 %s) 1)", v), fmt.Sprintf("(nd10 %s)", v), fmt.Sprintf("(+ (nd10 %s) 1)", v))
+		}
+		link(xs)
+	}
+	for _, v := range nds {
+		link([]string{"nd:" + v, fmt.Sprintf("(- (nd10 %s) 1)", v), fmt.Sprintf("(nd10 %s)", v), fmt.Sprintf("(+ (nd10 %s) 1)", v)})
+	}
+	return rel
+}
+
+func (o *Obligation) level() int {
+	if o.Level == 0 {
+		return 2
+	}
+	return o.Level
+}
+
 // Query renders the SMT-LIB text of an obligation.
 func (o *Obligation) Query(forCvc5 bool) string {
 	var sb strings.Builder
@@ -243,13 +327,18 @@ func (o *Obligation) Query(forCvc5 bool) string {
 		body.WriteString(f)
 		body.WriteString(")\n")
 	}
+	for _, f := range o.Extra {
+		body.WriteString("(assert ")
+		body.WriteString(f)
+		body.WriteString(")\n")
+	}
 	if !o.ExpectSat {
 		body.WriteString("(assert (not ")
 		body.WriteString(Implies(o.Guard, o.Goal).S)
 		body.WriteString("))\n")
 	}
 	text := body.String()
-	for _, inst := range lemmaInstances(text) {
+	for _, inst := range lemmaInstances(text, o.level()) {
 		sb.WriteString("(assert ")
 		sb.WriteString(inst)
 		sb.WriteString(")\n")
@@ -268,6 +357,9 @@ var solvers = map[string]solverSpec{
 	"z3-new": {"z3-new", func(f string, t time.Duration) []string {
 		return []string{fmt.Sprintf("-T:%d", int(t.Seconds())), "-smt2", f}
 	}},
+	"z3-new-a2": {"z3-new", func(f string, t time.Duration) []string {
+		return []string{fmt.Sprintf("-T:%d", int(t.Seconds())), "smt.arith.solver=2", "-smt2", f}
+	}},
 	"z3": {"z3", func(f string, t time.Duration) []string {
 		return []string{fmt.Sprintf("-T:%d", int(t.Seconds())), "-smt2", f}
 	}},
@@ -277,8 +369,12 @@ var solvers = map[string]solverSpec{
 }
 
 func runSolver(solver, file string, timeout time.Duration) (string, string, float64) {
+	return runSolverCtx(context.Background(), solver, file, timeout)
+}
+
+func runSolverCtx(parent context.Context, solver, file string, timeout time.Duration) (string, string, float64) {
 	sp := solvers[solver]
-	ctx, cancel := context.WithTimeout(context.Background(), timeout+3*time.Second)
+	ctx, cancel := context.WithTimeout(parent, timeout+3*time.Second)
 	defer cancel()
 	start := time.Now()
 	cmd := exec.CommandContext(ctx, sp.name, sp.args(file, timeout)...)
@@ -310,6 +406,78 @@ func obFile(o *Obligation, suffix string) string {
 
 // solve discharges one obligation with the portfolio.
 func solve(o *Obligation, timeout time.Duration, portfolio []string) {
+	if o.ExpectSat || o.Level != 0 {
+		solveAt(o, timeout, portfolio)
+		return
+	}
+	// Race two instantiation levels on the primary solver: level 1 generates pair
+	// lemmas for related terms only (small query), level 2 all pairs. The first
+	// unsat wins. If neither proves it, the other solvers try the level-2 query.
+	start := time.Now()
+	files := [2]string{obFile(o, ".l1"), obFile(o, "")}
+	for i, lvl := range []int{1, 2} {
+		o.Level = lvl
+		os.WriteFile(files[i], []byte(o.Query(false)), 0o644)
+	}
+	o.Level = 0
+	type res struct {
+		lvl    int
+		solver string
+		r, out string
+	}
+	// racers: the primary solver in two arithmetic configurations x two instantiation levels
+	type racer struct {
+		solver string
+		lvl    int
+	}
+	racers := []racer{{portfolio[0], 1}, {portfolio[0], 2}}
+	if portfolio[0] == "z3-new" {
+		racers = append(racers, racer{"z3-new-a2", 1}, racer{"z3-new-a2", 2})
+	}
+	ctx, cancel := context.WithCancel(context.Background())
+	ch := make(chan res, len(racers))
+	for _, rc := range racers {
+		go func(rc racer) {
+			r, out, _ := runSolverCtx(ctx, rc.solver, files[rc.lvl-1], timeout)
+			ch <- res{rc.lvl, rc.solver, r, out}
+		}(rc)
+	}
+	var l2 res
+	anySat := false
+	for got := 0; got < len(racers); got++ {
+		r := <-ch
+		if r.r == "unsat" {
+			cancel()
+			o.Status, o.Backend, o.Output, o.LevelUsed = "proved", r.solver, r.out, r.lvl
+			o.Time = time.Since(start).Seconds()
+			return
+		}
+		if r.lvl == 2 {
+			if r.r == "sat" {
+				anySat = true
+				l2 = r
+			} else if l2.r == "" {
+				l2 = r
+			}
+		}
+	}
+	cancel()
+	o.Backend, o.Output, o.LevelUsed = l2.solver, l2.out, 2
+	if anySat {
+		o.Status = "failed"
+		o.Time = time.Since(start).Seconds()
+		return
+	}
+	o.Status = l2.r
+	if len(portfolio) > 1 {
+		o.Level = 2
+		solveAt(o, timeout, portfolio[1:])
+		o.Level = 0
+	}
+	o.Time = time.Since(start).Seconds()
+}
+
+func solveAt(o *Obligation, timeout time.Duration, portfolio []string) {
 	q := o.Query(false)
 	file := obFile(o, "")
 	os.WriteFile(file, []byte(q), 0o644)
@@ -377,4 +545,13 @@ func solveAll(obls []*Obligation, timeout time.Duration, portfolio []string, wor
 	}
 	close(ch)
 	wg.Wait()
+}
+
+func isAllDigits(s string) bool {
+	for _, c := range s {
+		if c < '0' || c > '9' {
+			return false
+		}
+	}
+	return s != ""
 }
